@@ -33,9 +33,9 @@ def catalogue(tier):
     # --- joins and departures racing on one session / one id (C07, C10)
     sc.append(dict(cid="join_vs_last_leave", props=["C07", "C09", "C10", "C01"], setup=[J(1, 0, 1)],
                    block=[B(1, k="Disc"), BJ(2, 1, 2)], after=PROBE))
-    sc.append(dict(cid="two_last_leaves_and_creator", props=["C07", "C09", "C10"], setup=[J(1, 0, 1), J(2, 1, 2)],
+    sc.append(dict(cid="two_last_leaves_and_creator", props=["C07", "C09", "C10", "C03"], setup=[J(1, 0, 1), J(2, 1, 2)],
                    block=[B(1, k="Disc"), B(2, k="Disc"), BJ(3, 0, 3)], after=PROBE + [J(5, 0, 93)]))
-    sc.append(dict(cid="join_vs_last_leave_and_creator", props=["C07", "C09", "C10"], setup=[J(1, 0, 1)],
+    sc.append(dict(cid="join_vs_last_leave_and_creator", props=["C07", "C09", "C10", "C03"], setup=[J(1, 0, 1)],
                    block=[B(1, k="Disc"), BJ(2, 1, 2), BJ(3, 0, 3)], after=PROBE + [J(5, 0, 93)]))
     sc.append(dict(cid="two_creates", props=["C07", "C09", "C10"], setup=[],
                    block=[BJ(1, 0, 1), BJ(2, 0, 2)], after=PROBE + [J(5, 2, 92)]))
@@ -46,7 +46,7 @@ def catalogue(tier):
                           Rq(1, k="AssetAdd", rid=13, eid=1, asset="m", ts=13)] + PROBE))
     sc.append(dict(cid="switch_vs_join", props=["C07", "C09", "C10", "C01", "C02"], setup=[J(1, 0, 1), J(2, 0, 2), ent(1, 3)],
                    block=[BJ(1, 2, 4), BJ(3, 1, 5)], after=PROBE))
-    sc.append(dict(cid="last_leave_vs_create_reuse", props=["C07", "C09", "C10"], setup=[J(1, 0, 1)],
+    sc.append(dict(cid="last_leave_vs_create_reuse", props=["C07", "C09", "C10", "C03"], setup=[J(1, 0, 1)],
                    block=[B(1, k="Disc"), BJ(2, 0, 2), BJ(3, 0, 3)], after=PROBE))
     # --- snapshot vs change (C01), relays exactly once (C02)
     sc.append(dict(cid="join_vs_entity_delete", props=["C01", "C02", "C09"], setup=[J(1, 0, 1), ent(1, 2), ent(1, 3, True)],
@@ -62,11 +62,11 @@ def catalogue(tier):
     sc.append(dict(cid="two_entity_adds_and_delete", props=["C02", "C09", "C10", "C01"], setup=[J(1, 0, 1), J(2, 1, 2), J(3, 1, 3), ent(1, 4)],
                    block=[B(1, k="EntityDelete", rid=5, eid=1, ts=5), B(2, k="EntityAdd", rid=6, persist=False, flag=0, px=2, ts=6),
                           B(3, k="EntityAdd", rid=7, persist=True, flag=1, px=3, ts=7)], after=PROBE))
-    sc.append(dict(cid="types_and_components", props=["C09", "C10"], setup=[J(1, 0, 1), J(2, 1, 2), ent(1, 3)],
+    sc.append(dict(cid="types_and_components", props=["C09", "C10", "C12"], setup=[J(1, 0, 1), J(2, 1, 2), ent(1, 3)],
                    block=[B(1, k="TypeAdd", rid=4, name="a"), B(2, k="TypeAdd", rid=5, name="a"), B(1, k="TypeAdd", rid=6, name="b")][:2] +
                          [B(3, k="Join", rid=7, sid=1, ts=7)], after=[Rq(1, k="GetId", rid=8, name="a"), Rq(2, k="Sub", rid=9, tid=1),
                                                                     Rq(1, k="CompAdd", rid=10, tid=1, eid=1, data=1, ts=10)] + PROBE))
-    sc.append(dict(cid="subscribe_vs_component_add", props=["C09"], setup=[J(1, 0, 1), J(2, 1, 2), ent(1, 3), Rq(1, k="TypeAdd", rid=4, name="a")],
+    sc.append(dict(cid="subscribe_vs_component_add", props=["C09", "C12"], setup=[J(1, 0, 1), J(2, 1, 2), ent(1, 3), Rq(1, k="TypeAdd", rid=4, name="a")],
                    block=[B(2, k="Sub", rid=5, tid=1), B(1, k="CompAdd", rid=6, tid=1, eid=1, data=1, ts=6), B(3, k="Join", rid=7, sid=1, ts=7)],
                    after=PROBE))
     sc.append(dict(cid="assets_and_actions", props=["C09", "C10"], setup=[J(1, 0, 1), J(2, 1, 2), ent(1, 3), ent(2, 4)],
@@ -103,7 +103,10 @@ def symptom(blk):
     return "other"
 
 
-INVS = {"C07": ["Ok_C07"], "C10": ["Ok_C10"], "C01": ["Ok_C01c", "Ok_C01q"], "C02": ["Ok_C02c"], "C09": ["Ok_C09c"]}
+INVS = {"C07": ["Ok_C07"], "C10": ["Ok_C10"], "C01": ["Ok_C01c", "Ok_C01q"], "C02": ["Ok_C02c"], "C09": ["Ok_C09c"],
+        # C03 / C12 are stated over histories; the state invariants they rest on (a member's session is the one found
+        # under its id; type names and ids are inverse maps) are also evaluated after concurrent blocks
+        "C03": ["Ok_C03c"], "C12": ["Ok_C12c"]}
 # (random blocks use up to 16 connections)
 
 
